@@ -54,6 +54,15 @@ Theorem C08_proxy_addr_sticks : forall inet4_ok inet6_ok netloc_ok c w p data r 
 Proof. exact proxy_addr_sticks_proof. Qed.
 Print Assumptions C08_proxy_addr_sticks.
 
+(* ... and the gate is sufficient as well: an accepted first request whose connection starts with a PROXY
+   line that parse_proxy_protocol accepts carries exactly that declaration (so (d) applies to it) *)
+Theorem C08_proxy_line_is_applied : forall inet4_ok inet6_ok netloc_ok c p data pl rb i r rest,
+  proxy_protocol c = true -> cut_crlf data = Some (pl, rb) -> starts_with s_PROXY pl = true ->
+  parse_proxy_line inet4_ok inet6_ok pl = Some i ->
+  parse_request inet4_ok inet6_ok netloc_ok c p 1 data = PAccept r rest -> r_ppi r = Some i.
+Proof. exact proxy_line_is_applied_proof. Qed.
+Print Assumptions C08_proxy_line_is_applied.
+
 (* the fuel of the connection loop is never exhausted: (c) and (d) speak about complete runs *)
 Theorem C08_runs_are_complete : forall inet4_ok inet6_ok netloc_ok c w p data,
   ~ In ROutOfFuel (conn_run inet4_ok inet6_ok netloc_ok c w p data).
@@ -128,17 +137,31 @@ Example stranger_asserts_nothing :
   end.
 Proof. vm_compute. repeat split. Qed.
 
-(* (b) needs its hypothesis header_map <> dangerous: in 'dangerous' mode the faithful model lets a
-   stranger's SCRIPT_NAME header through to wsgi.create, which obeys it.  The witness is replayed on the
-   implementation by harness/props/c08.py (known finding dangerous-untrusted-script-name). *)
+(* (b) in 'dangerous' mode.  Whether wsgi.create itself checks the gate before obeying a SCRIPT_NAME
+   header is probed on the tree under test (GenEnv.script_name_needs_trust).
+   - where it does, SCRIPT_NAME / PATH_INFO are out of an untrusted peer's reach in EVERY mode: *)
+Theorem C08_untrusted_script_name_any_mode : forall inet4_ok inet6_ok netloc_ok c p reqno data r rest i e,
+  script_name_needs_trust = true -> trusted_fwd c p = false ->
+  parse_request inet4_ok inet6_ok netloc_ok c p reqno data = PAccept r rest ->
+  wsgi_create c (set_ppi r i) p = inr e ->
+  env_get s_SCRIPT_NAME e = Some (os_script_name c) /\
+  exists pi, r_path r = os_script_name c ++ pi /\ env_get s_PATH_INFO e = Some (unquote pi).
+Proof. exact untrusted_script_name_any_mode_proof. Qed.
+Print Assumptions C08_untrusted_script_name_any_mode.
+(* - where it does not (gunicorn 23.0.0), (b) needs its hypothesis header_map <> dangerous: the faithful model
+     lets a stranger's SCRIPT_NAME header through to wsgi.create, which obeys it.  The witness is replayed on the
+     implementation by harness/props/c08.py (known finding dangerous-untrusted-script-name). *)
 Theorem C08_untrusted_peer_dangerous_mode_refuted :
+  script_name_needs_trust = false ->
   exists c p data e,
     trusted_fwd c p = false /\ header_map c = Dangerous /\ env_of c p data = Some e /\
     env_get s_SCRIPT_NAME e <> Some (os_script_name c).
 Proof.
-  exists (with_mode default_cfg Dangerous false), stranger, req_spoof.
-  eexists. split; [vm_compute; reflexivity|]. split; [reflexivity|]. split; [vm_compute; reflexivity|].
-  vm_compute. discriminate.
+  intros Hflag.
+  first [ discriminate Hflag
+        | exists (with_mode default_cfg Dangerous false), stranger, req_spoof;
+          eexists; split; [vm_compute; reflexivity|]; split; [reflexivity|]; split; [vm_compute; reflexivity|];
+          vm_compute; discriminate ].
 Qed.
 
 (* "PROXY TCP4 1.2.3.4 5.6.7.8 1111 80" CRLF then three requests "GET /k HTTP/1.1" CRLF CRLF *)
